@@ -63,16 +63,28 @@ CONSTANTS Nodes,      \* correct validators running nodes
 VARIABLES hh, pool, chain, born, last, hist, nev, nrs
 vars == <<hh, pool, chain, born, last, hist, nev, nrs>>
 
-NoEv == <<0, 0, 0, {}, 0>>      \* event = <<kind, round, type, observers, offender>>
+NoEv == <<0, 0, 0, {}, 0, 0>>   \* event = <<kind, round, type, observers, offender, block pair>>
+
+(* block pair of an event (kinds 1 and 4, prevotes of round 1 only; 0 everywhere else):                     *)
+(*   0  two different block hashes (prevotes 2/3; precommits nil/2; late precommits nil/3)                   *)
+(*   1  the SAME block hash with two part-set hashes (2/5), the vote with the smaller key arrives first     *)
+(*   2  the same, the vote with the greater key arrives first - the evidence is the same                    *)
+(*   3  the same block hash and part-set hash with two part-set TOTALS (2/6): one target (Evidence.tla       *)
+(*      BKey), the second vote is a non-deterministic signature for consensus, there is NO evidence         *)
 
 (* the evidence an observer reports for an event at height h (kind, round, type): blocks 2/3 for prevotes, *)
 (* nil/2 for precommits; round 0 stands for "the commit round of that height" (resolved by the driver)      *)
 (* (a late event uses nil/3 so that it is a different pair of votes than an earlier event of that height)  *)
 EvOf(z, h, r, t) == IF t = 1 THEN Dve(z, h, r, 1, 2, 3) ELSE Dve(z, h, r, 2, 0, 2)
 EventEvidence(ev, h) ==
-  CASE ev[1] \in {1, 4} -> EvOf(ev[5], h, ev[2], ev[3])
+  CASE ev[1] \in {1, 4} /\ ev[6] \in {1, 2} -> Dve(ev[5], h, ev[2], ev[3], 2, 5)
+    [] ev[1] \in {1, 4} /\ ev[6] = 3 -> Dve(ev[5], h, ev[2], ev[3], 2, 6)      \* (not evidence: the votes to show)
+    [] ev[1] \in {1, 4} -> EvOf(ev[5], h, ev[2], ev[3])
     [] ev[1] = 2 -> Dve(ev[5], h - 1, 0, 2, 0, 3)
     [] ev[1] = 3 -> EvOf(ev[5], h - 1, last.ev[2], 2)
+(* the two votes in the order in which the observers see them *)
+Shown(ev, h) == LET e == EventEvidence(ev, h)
+                IN IF ev[6] = 2 THEN <<Compact(e.b), Compact(e.a)>> ELSE <<Compact(e.a), Compact(e.b)>>
 Off(h) == {z \in Byzs : h \in 1..Top /\ Power[h][z] > 0}
 
 (* the evidence in the chain so far, in order *)
@@ -90,13 +102,15 @@ ByzList(v, h) ==
 
 Events(h) == {NoEv} \cup
   (IF h \in EqHeights /\ nev < MaxEvents
-   THEN (IF 1 \in Kinds THEN {<<1, r, t, O, z>> : r \in {1, 2}, t \in {1, 2}, O \in ObsSets, z \in Off(h)} ELSE {})
-        \cup (IF 2 \in Kinds /\ h >= 2 THEN {<<2, 0, 2, O, z>> : O \in ObsSets, z \in Off(h - 1)} ELSE {})
+   THEN (IF 1 \in Kinds THEN {<<1, r, t, O, z, 0>> : r \in {1, 2}, t \in {1, 2}, O \in ObsSets, z \in Off(h)}
+                               \cup {<<1, 1, 1, O, z, bp>> : O \in ObsSets, z \in Off(h), bp \in {1, 2, 3}} ELSE {})
+        \cup (IF 2 \in Kinds /\ h >= 2 THEN {<<2, 0, 2, O, z, 0>> : O \in ObsSets, z \in Off(h - 1)} ELSE {})
         \cup (IF 3 \in Kinds /\ h >= 2 /\ last.h = h - 1 /\ last.ev[1] = 1 /\ last.ev[3] = 2 /\ last.ev[2] = 1
-              THEN {<<3, 0, 2, last.ev[4], last.ev[5]>>} ELSE {})
-        \cup (IF 4 \in Kinds /\ h >= 2 THEN {<<4, 1, t, O, z>> : t \in {1, 2}, O \in ObsSets, z \in Off(h)} ELSE {})
+              THEN {<<3, 0, 2, last.ev[4], last.ev[5], 0>>} ELSE {})
+        \cup (IF 4 \in Kinds /\ h >= 2 THEN {<<4, 1, t, O, z, 0>> : t \in {1, 2}, O \in ObsSets, z \in Off(h)}
+                                              \cup {<<4, 1, 1, O, z, 1>> : O \in ObsSets, z \in Off(h)} ELSE {})
         \cup (IF 5 \in Kinds /\ h >= 2 /\ Priv \in Off(h - 1)
-              THEN {<<5, v, 0, {}, Priv>> : v \in (IF Len(ChainEvidence) > 0 THEN 1..5 ELSE {1, 3, 4, 5})} ELSE {})
+              THEN {<<5, v, 0, {}, Priv, 0>> : v \in (IF Len(ChainEvidence) > 0 THEN 1..5 ELSE {1, 3, 4, 5})} ELSE {})
    ELSE {})
 
 Init == /\ hh = 1 /\ pool = [n \in Nodes |-> EmptyPool(0)] /\ chain = <<>> /\ born = {}
@@ -116,8 +130,9 @@ Gossip(P, peerH) == [m \in Nodes |-> RecvAll(P[m], Offered(P, m, peerH))]
 GossipResults(P, peerH) == UNION {{Recv(P[m], e).res : e \in Offered(P, m, peerH)} : m \in Nodes}
 
 Height(ev, rs) ==
-  LET isEq == ev # NoEv /\ ev[1] # 5
-      e    == IF isEq THEN EventEvidence(ev, hh) ELSE Fresh(hh)
+  LET shows == ev # NoEv /\ ev[1] # 5            \* votes are shown to the observers ...
+      isEq  == shows /\ ev[6] # 3                  \* ... and they are an equivocation
+      e     == IF isEq THEN EventEvidence(ev, hh) ELSE Fresh(hh)
       bl   == IF ev[1] = 5 THEN ByzList(ev[2], hh) ELSE <<>>
       B    == [n \in Nodes |-> Check(pool[n], bl)]
       P1   == IF ev[1] = 5 THEN [n \in Nodes |-> B[n].st]
@@ -138,8 +153,9 @@ Height(ev, rs) ==
      /\ last' = IF ev = NoEv THEN last ELSE [ev |-> ev, h |-> hh]
      /\ nev' = IF ev = NoEv THEN nev ELSE nev + 1
      /\ nrs' = IF rs = 0 THEN nrs ELSE nrs + 1
-     /\ hist' = Append(hist, [ev  |-> <<ev[1], ev[2], ev[3], ev[4], ev[5]>>, rs |-> rs, pv |-> Priv,
+     /\ hist' = Append(hist, [ev  |-> <<ev[1], ev[2], ev[3], ev[4], ev[5], ev[6]>>, rs |-> rs, pv |-> Priv,
                               e   |-> IF isEq THEN CompactEv(e) ELSE <<>>,
+                              iv  |-> IF shows THEN Shown(ev, hh) ELSE <<>>,
                               bl  |-> [k \in 1..Len(bl) |-> CompactEv(bl[k])],
                               br  |-> [n \in Nodes |-> IF ev[1] = 5 THEN <<B[n].res, B[n].why>> ELSE <<"-", "-">>],
                               blk |-> [k \in 1..Len(blk) |-> CompactEv(blk[k])],
